@@ -192,10 +192,21 @@ func runC01(args []string) int {
 				} else {
 					cm := append([]curve.G1Affine{}, po.proof.Commitments...)
 					pk2 := append([]curve.G1Affine{}, poks...)
-					cm[0].Sub(&cm[0], &pks[0].Basis[0])
-					cm[1].Add(&cm[1], &pks[0].Basis[0])
-					pk2[0].Sub(&pk2[0], &pks[0].BasisExpSigma[0])
-					pk2[1].Add(&pk2[1], &pks[0].BasisExpSigma[0])
+					// a basis element that is not the point at infinity (a committed wire used by no constraint has a zero base)
+					bi := -1
+					for i := range pks[0].Basis {
+						if !pks[0].Basis[i].IsInfinity() {
+							bi = i
+							break
+						}
+					}
+					if bi < 0 {
+						continue
+					}
+					cm[0].Sub(&cm[0], &pks[0].Basis[bi])
+					cm[1].Add(&cm[1], &pks[0].Basis[bi])
+					pk2[0].Sub(&pk2[0], &pks[0].BasisExpSigma[bi])
+					pk2[1].Add(&pk2[1], &pks[0].BasisExpSigma[bi])
 					d.Edit = "pedersen: basis element of commitment 0 moved into commitment 1"
 					rep.Eval(sp.name+"|pedersen-migration", true)
 					if err := pedersen.BatchVerifyMultiVk(run.vk.CommitmentKeys, cm, pk2, ch); err == nil {
